@@ -283,6 +283,24 @@ impl RomSet for VecRomSet {
     }
 }
 
+/// ROM set whose page assets deliver at most `chunk` bytes per read
+pub struct ShortRomSet {
+    pub pages: Vec<Vec<u8>>,
+    pub next: usize,
+    pub chunk: usize,
+}
+impl RomSet for ShortRomSet {
+    type Asset = ShortRead;
+    fn format(&self) -> RomFormat {
+        RomFormat::Binary16KPages
+    }
+    fn next_asset(&mut self) -> Option<Self::Asset> {
+        let p = self.pages.get(self.next).cloned();
+        self.next += 1;
+        p.map(|d| ShortRead::new(d, self.chunk))
+    }
+}
+
 // ---------------------------------------------------------------- host
 pub struct VCtx;
 impl HostContext<VHost> for VCtx {
